@@ -699,6 +699,50 @@ def check_defaults_only_for_the_missing(ctx, m) -> None:
     ctx.floor(RID, len(fns), 20, "functions of the Dosini writer/reader inspected for default-binding handlers")
 
 
+def check_stale_stage_files_removed(ctx, m) -> None:
+    """The reader finds the stage files by LISTING the directory (glob 'stage*..conf').  A writer that updates an existing directory
+    must therefore remove what a listing finds, not the files the new description happens to name: a shorter description would leave
+    the old stageK file behind, and the reader would load its components on top of what was written."""
+    RID = "C19.R11-one-stage-file-per-index"
+    dump = m.func("Dosini.dump")
+    ctx.analysed(dump)
+
+    def lists_stage_files(e: ast.AST) -> bool:
+        return any(isinstance(c, ast.Call) and (call_name(c) or "").endswith("glob") and any(
+            isinstance(x, ast.Constant) and isinstance(x.value, str) and x.value.startswith("stage*") for x in ast.walk(c)) for c in ast.walk(e))
+    from vlib import flow
+    cfg_d = CFG(dump)
+
+    def from_listing(name: str, at_node, depth: int = 0) -> bool:
+        """some reaching definition of `name` at this node is (derived from) a listing of the stage files"""
+        if depth > 5:
+            return False
+        rd = flow.reaching_defs(cfg_d, name, ignore_labels=("exc",)).get(at_node.id, frozenset())
+        for d in rd:
+            if d < 0:
+                continue
+            v = flow.def_value(cfg_d, d, name)
+            if v is None:
+                continue
+            if lists_stage_files(v):
+                return True
+            if any(from_listing(nm, cfg_d.nodes[d], depth + 1) for nm in set(source.names_in(v))):
+                return True
+        return False
+    removal_loops = [lp for lp in source.walk_own(dump) if isinstance(lp, ast.For) and any(
+        isinstance(c, ast.Call) and call_name(c) in ("os.remove", "os.unlink") for c in ast.walk(lp))]
+    ctx.floor(RID, len(removal_loops), 1, "loops of Dosini.dump that remove files of an existing directory")
+    for lp in removal_loops:
+        fn_ = [n for n in cfg_d.nodes if n.kind == "for" and n.ast is lp]
+        ok = bool(fn_) and any(from_listing(nm, fn_[0]) for nm in set(source.names_in(lp.iter)))
+        ctx.ob(RID, lp, ok,
+               "the files removed before an update include what a listing of stages.d finds (the reader lists the directory too)" if ok else
+               "Dosini.dump removes only files it derives from the NEW description (%s): when the directory holds stage0..N from an earlier write and "
+               "the next description has fewer stages, stageK.instance.conf survives, _discover_stages still sees contiguous indices and the "
+               "reloaded instance has the stale stage's components on top of what was written" % short(lp.iter, 40),
+               construct="dump: stale stage files are found by listing stages.d")
+
+
 def check_static_tables(ctx, m, cls) -> None:
     from vlib import state
     rule = "C19.R7-static-option-tables"
@@ -884,6 +928,7 @@ def run(ctx) -> None:
     check_stage_file_index(ctx, m)
     check_missing_not_none(ctx, m)
     check_stage_files_contiguous(ctx, m)
+    check_stale_stage_files_removed(ctx, m)
     check_defaults_only_for_the_missing(ctx, m)
     check_section_prefix(ctx, m)
     tmap = {k: v for k, v in translate.items() if v is not None}
